@@ -69,6 +69,10 @@ type SlotWrite struct {
 type FileSpec struct {
 	L      Layout      `json:"layout"`
 	Writes []SlotWrite `json:"writes,omitempty"`
+	// Fill > 0: additionally the newest Fill slots of archive 0 get the value FillBase + index
+	// (one batch), to build large files without a large case description.
+	Fill     int64 `json:"fill,omitempty"`
+	FillBase F64   `json:"fill_base,omitempty"`
 }
 
 func buildFile(path string, spec FileSpec, now int64) error {
@@ -80,6 +84,15 @@ func buildFile(path string, spec FileSpec, now int64) error {
 		return err
 	}
 	defer db.Close()
+	if spec.Fill > 0 {
+		var pts []MPoint
+		for i := int64(0); i < spec.Fill && i < spec.L.Archives[0].Points; i++ {
+			pts = append(pts, MPoint{T: now - i*spec.L.Archives[0].Step, V: F64(float64(spec.FillBase) + float64(i))})
+		}
+		if err, pm := batchWT(db, pts, 0, now); err != nil || pm != "" {
+			return fmt.Errorf("setup fill failed: %v %s", err, pm)
+		}
+	}
 	if err := applyWrites(db, spec.Writes, now); err != nil {
 		return err
 	}
